@@ -71,12 +71,13 @@ class PiecewiseTreeRegressor(DecisionTreeRegressor):
         else:
             replace = None
 
-        DecisionTreeRegressor.fit(
-            self, X, y, sample_weight=sample_weight, check_input=check_input
-        )
-
-        if replace:
-            self.criterion = replace
+        try:
+            DecisionTreeRegressor.fit(
+                self, X, y, sample_weight=sample_weight, check_input=check_input
+            )
+        finally:
+            if replace:
+                self.criterion = replace
 
         if self.criterion == "mselin":
             self._fit_reglin(X, y, sample_weight)
